@@ -22,3 +22,8 @@ reg('C15', 'model_checking', 'H (explicit-state / history explorer)', 'explicit-
     'The complete reachable state space (used-set x cursor) of the real app_pointer_map<uint8_t> is explored for every limit 1..12 (1..15 thorough) with every get/remove/lookup transition checked against a reference map; full-minus-two-holes families cover limits up to 254 and 32/64-bit tokens; owner objects (move, overwrite, destroy, unregister, store/load) are explored by BFS over histories on an 8-bit mbox sandbox from seeds that make exhaustion reachable.',
     'State key drops pointer values (table never branches on them). Complete state spaces only up to limit 12/15; larger limits by structured families. Histories end at the first abort.',
     'DESIGN.md section 3, C15')
+
+reg('C05', 'exploration', 'X (exhaustive input enumerator)', 'bounded exhaustive input enumeration vs exact 128-bit reference',
+    'Every arithmetic form on tainted pointers is executed for every element-aligned base address of a 64 KiB foreign-ABI sandbox (and null), for 11 pointee types whose guest size differs from the host size, with n drawn from every integer type (boundary-directed values incl. products beyond 2^32/2^64), as plain, tainted and tainted_volatile operands; each result is compared with the exact address p +- n*s_guest or a required abort.',
+    'Guest sizes come from a hand-written layout table; bases are exhaustive only on the 16-bit instance (32-bit instance: boundary bases); aborts observed via the custom-abort flag.',
+    'DESIGN.md section 3, C05')
